@@ -212,13 +212,24 @@ Quantize(q, quant, rm, mode) ==
 (* round(q, n): relational - a multiple of 10^-n nearest to the amount      *)
 (* (the property does not fix the tie rule).                                *)
 P10(n) == IF n >= 0 THEN <<1, IPowNat(10, n)>> ELSE <<IPowNat(10, -n), 1>>
-RoundJudge(q, n, r) ==
+\* mode: the configured default rounding mode.  The property does not say which rule round() follows; decimal
+\* amounts follow the configured default mode, fractions round half-even - so under a directed default mode the
+\* result may be up to (but not) one unit of the last place away, under the nearest modes at most half of it.
+RoundJudge(q, n, r, mode) ==
     LET rq   == SDiv(r.a, P10(n))
         xq   == SDiv(q.a, P10(n))
         diff == SSub(rq, xq)
+        qu   == SQuantum(q.u)
+        nearest == mode \in {"ROUND_HALF_UP", "ROUND_HALF_DOWN", "ROUND_HALF_EVEN"}
+        \* a quantized type constructs the rounded amount like any other instance (C05): the result is on the
+        \* grid and at most half a quantum (a whole one under a directed mode) further away
+        slack == IF qu = NoRat THEN RZero ELSE SDiv(SDiv(qu, P10(n)), IF nearest THEN <<2, 1>> ELSE ROne)
+        lim  == SAdd(IF nearest THEN <<1, 2>> ELSE ROne, slack)
+        near == IF nearest THEN RLe(RAbs(diff), lim) ELSE RLt(RAbs(diff), lim)
     IN  IF r.k # "q" \/ r.t # q.t \/ r.u # q.u THEN "bad"
-        ELSE IF IsOOR(diff) THEN "oor"
-        ELSE IF RIsInt(rq) /\ RLe(RAbs(diff), <<1, 2>>) THEN "ok" ELSE "bad"
+        ELSE IF IsOOR(diff) \/ IsOOR(slack) \/ IsOOR(lim) THEN "oor"
+        ELSE IF qu = NoRat THEN (IF RIsInt(rq) /\ near THEN "ok" ELSE "bad")
+        ELSE IF IsMultiple(r.a, qu) /\ near THEN "ok" ELSE "bad"
 
 (* C19 / C04: the abstract identity that equality is defined on.            *)
 HashKey(q) == IF Scalable(q.t) THEN <<q.t, RefVal(q)>> ELSE <<q.t, q.u, q.a>>
